@@ -297,6 +297,35 @@ func init() {
 		sf[6] = Bool(u.Field(i).Embedded())
 		return ret(sf)
 	})
+	regIntrinsic("(reflect.Value).Field", func(w *Worker, st *State, f *Frame, x *ssa.Call, fv FuncV, a []Value) (Value, bool) {
+		t, addr := reflectValueParts(a[0])
+		u, ok := t.Underlying().(*types.Struct)
+		if !ok {
+			panic(goPanic{msg: "reflect: call of reflect.Value.Field on " + t.String()})
+		}
+		if !reflectValueIndir(a[0]) {
+			panic(cutErr{"reflect.Value.Field of a non-addressable struct value"})
+		}
+		iv, ok := a[1].(*Term)
+		if !ok || !iv.IsConst() {
+			panic(cutErr{"reflect.Value.Field with symbolic index"})
+		}
+		i := int(iv.C)
+		if i < 0 || i >= u.NumFields() {
+			panic(goPanic{msg: "reflect: Field index out of range"})
+		}
+		flds := make([]*types.Var, u.NumFields())
+		for j := range flds {
+			flds[j] = u.Field(j)
+		}
+		offs := sizes.Offsetsof(flds)
+		p, ok := addr.(Ptr)
+		if !ok || p.IsNil() {
+			panic(cutErr{"reflect.Value.Field without address"})
+		}
+		p.Off += offs[i]
+		return ret(mkReflectLvalue(u.Field(i).Type(), p))
+	})
 	regIntrinsic("(*reflect.rtype).NumField", func(w *Worker, st *State, f *Frame, x *ssa.Call, fv FuncV, a []Value) (Value, bool) {
 		u, ok := typeOfRecv(a[0]).Underlying().(*types.Struct)
 		if !ok {
